@@ -75,12 +75,15 @@ def main():
                                                                                                  "plot_periodicity", "plot_patient_periodicity", "nb_of_patients_to_plot",
                                                                                                  "overwrite_logs_folder", "plot_sourcewise")})
                 st_.parameters["n_iter"] = reuse["earlier_n_iter"]
-                if name == "mcmc_saem":
-                    m0 = workload.make_model(kind, nf)
-                    m0.fit(workload.to_data(cohort("train"), kind), algorithm_settings=st_)
-                else:
-                    m0 = ac.load_from_settings(ac.handwritten_settings(Stream(plan["gseed"], "model"), kind, nf))
-                    m0.personalize(workload.to_data(cohort("perso", n=3), kind), algorithm_settings=st_)
+                try:
+                    if name == "mcmc_saem":
+                        m0 = workload.make_model(kind, nf)
+                        m0.fit(workload.to_data(cohort("train"), kind), algorithm_settings=st_)
+                    else:
+                        m0 = ac.load_from_settings(ac.handwritten_settings(Stream(plan["gseed"], "model"), kind, nf))
+                        m0.personalize(workload.to_data(cohort("perso", n=3), kind), algorithm_settings=st_)
+                except Exception as e_:   # the *earlier* call may be refused (e.g. too few iterations for the plateaus) or fail: it is history
+                    out["notes"].append(f"earlier call with the shared settings raised {type(e_).__name__}")
                 st_.parameters["n_iter"] = kw_["n_iter"]
                 return st_
 
